@@ -43,8 +43,10 @@ impl SerdeParser {
                 if let Ok(tokens) = syn::parse2::<syn::MetaList>(attr.meta.to_token_stream()) {
                     let tokens_str = tokens.tokens.to_string();
 
-                    // Check for skip flag
-                    if tokens_str.contains("skip") && !tokens_str.contains("skip_serializing") {
+                    // Check for skip flag: an item that is exactly `skip` — not `skip_serializing_if = ..`,
+                    // and not the word "skip" inside a string such as rename = "skip_count"
+                    let masked = super::validator_parser::mask_string_literals(&tokens_str);
+                    if masked.split(',').any(|item| item.trim() == "skip") {
                         result.skip = true;
                     }
 
